@@ -19,6 +19,8 @@ pub mod errors;
 pub mod tags;
 pub mod term;
 pub mod types;
+#[cfg(edp_verif)]
+pub mod verif;
 
 pub use borrowed::BorrowedTerm;
 pub use decoder::{AtomCache, decode, decode_borrowed, decode_with_atom_cache};
